@@ -1,3 +1,3 @@
 From Coq Require Import Extraction ExtrOcamlBasic.
-From MW Require Import C01.Passes.
-Extraction "../ocaml/c01p/c01p_model.ml" sec_run sec_fuel lin_run lin_fuel par_run par_fuel sq_run sq_fuel url_run url_fuel analyze_full.
+From MW Require Import C01.Passes C01.PassesPre C01.PassesTable.
+Extraction "../ocaml/c01p/c01p_model.ml" sec_run sec_fuel lin_run lin_fuel par_run par_fuel sq_run sq_fuel url_run url_fuel analyze_full pre_run pre_fuel cell_run cell_fuel row_run row_fuel tab_run tab_fuel.
